@@ -10,3 +10,8 @@ MUTANTS = [
     ("value-is-case-sensitive", "vsg/vhdlFile/utils.py", "    if lAllObjects[iToken].get_lower_value() == sString.lower():", "    if lAllObjects[iToken].get_value() == sString.lower():"),
     ("text-skips-empty-ok", "vsg/vhdlFile/utils.py", "    for oToken in lTokens:\n        sReturn += oToken.get_value()\n    return sReturn", "    for oToken in lTokens:\n        if oToken.get_value() != \"\":\n            sReturn += oToken.get_value()\n    return sReturn"),
 ]
+
+MUTANTS += [
+    ("wsc-comment-not-skipped", "vsg/vhdlFile/utils.py", "        or isinstance(oToken, parser.comment)\n        or isinstance(oToken, parser.blank_line)\n        or isinstance(oToken, parser.preprocessor)\n    ):\n        return True\n    else:\n        return False\n\n\ndef token_is_whitespace_token", "        or isinstance(oToken, parser.blank_line)\n        or isinstance(oToken, parser.preprocessor)\n    ):\n        return True\n    else:\n        return False\n\n\ndef token_is_whitespace_token"),
+    ("next-nonws-off-by-one", "vsg/vhdlFile/utils.py", "        if token_is_whitespace_or_comment(oToken):\n            continue\n        return iIndex\n    return iCurrent", "        if token_is_whitespace_or_comment(oToken):\n            continue\n        return iIndex + 1\n    return iCurrent"),
+]
